@@ -65,7 +65,13 @@ class BaseCtx(object):
         self.cells = set()
         self.trace = []
         self.nontrivial = False
-        self.world = World(cfg)
+        if cfg.get("handler") == "default":
+            # the real DefaultHandler (message log on a simulated file system) instead of the recording one
+            from sim import simfs
+            self.fs = simfs.SimFS()
+            self.world = World(cfg, fs=self.fs)
+        else:
+            self.world = World(cfg)
         self.pos = len(self.world.log)
         self.tx_off = {}
         self.done = False
@@ -142,7 +148,14 @@ class BaseCtx(object):
 
     escape_is_violation = True
 
+    exceptions_end_run = True     # False: a plain exception that escapes into the reactor is logged there and
+                                  # the run goes on (the oracle's invariants still apply)
+
     def check_escapes(self, escapes, cell):
+        if escapes and not self.escape_is_violation and not self.exceptions_end_run \
+                and all(e[0] == "exc" for e in escapes):
+            self.stats["exception_escaped_into_reactor(run continues)"] += len(escapes)
+            return
         if escapes and not self.escape_is_violation:
             # an exception / endless loop / exit escaping from the agent is C10's (and C01's, C04's)
             # subject; here the run simply cannot be judged any further
@@ -253,7 +266,18 @@ def gen_notif(rng, version_error=None):
     if version_error:
         return rp.encode_notification(2, 1, b"\x00\x04" if rng.chance(0.5) else b"")
     code, sub = rng.pick(NOTIFS[1:])
-    return rp.encode_notification(code, sub, bytes(rng.randrange(256) for _ in range(rng.randrange(0, 4))))
+    if rng.chance(0.35):
+        # every error code the RFCs define (1-6 RFC 4271, 7 RFC 5492/7313, 8 RFC 8538...) and unknown ones, any subcode
+        code = rng.pick([1, 2, 3, 4, 5, 6, 7, 7, 8, 0, 200])
+        sub = rng.pick([0, 1, 2, 3, 4, 7, 8, 11, 255])
+        if (code, sub) == (2, 1):
+            sub = 2
+    data = bytes(rng.randrange(256) for _ in range(rng.randrange(0, 4)))
+    if code == 6 and sub in (2, 4) and rng.chance(0.5):
+        # RFC 8203 shutdown communication: length octet + text, not necessarily valid UTF-8
+        txt = rng.pick([b"maintenance", "wartung f\u00fcr heute".encode("latin-1"), "\u7ef4\u62a4".encode("utf-8")[:4], b""])
+        data = bytes([len(txt)]) + txt
+    return rp.encode_notification(code, sub, data)
 
 
 def gen_rr(rng):
